@@ -73,8 +73,9 @@ class BaseWindow(ContextManager):
         traceback: Optional[TracebackType] = None,
     ) -> None:
         logger.debug("running BaseWindow.__exit__")
-        if self.hide_cursor:
-            self.write(self.t.normal_cursor)
+        # a render hides the cursor even when hide_cursor is off, and may not
+        # have finished
+        self.write(self.t.normal_cursor)
 
     def on_terminal_size_change(self, height: int, width: int) -> None:
         # Changing the terminal size breaks the cache, because it
